@@ -12,7 +12,7 @@ def jOutcome : Outcome → Json
   | .corner w => Json.mkObj [("corner", Json.str w)]
 
 def variantOf (j : Json) : Variant :=
-  ⟨getBoolD j "d4" false, getBoolD j "d5" false, getBoolD j "d20" false⟩
+  ⟨getBoolD j "d4" false, getBoolD j "d5" false⟩
 
 def modeOf (s : String) : R Mode :=
   match s with
@@ -49,10 +49,6 @@ def jListing : Listing → Json
   | .err c => Json.mkObj [("err", Json.str c.name)]
   | .cyclic => Json.str "cyclic"
 
-def jIs : Except ErrClass Bool → Json
-  | .ok b => Json.bool b
-  | .error c => Json.mkObj [("err", Json.str c.name)]
-
 def sumAttr (fs : FS) (f : String) (p : Path) : Option String :=
   match resolve fs f p with
   | some (g, P) => match lookupE fs g P with
@@ -73,7 +69,7 @@ def observe (fs : FS) (v : Variant) (f : String) (cands : List String) : Json :=
   Json.mkObj [
     ("exists", Json.bool ex),
     ("list", jListing l),
-    ("is", Json.mkObj (cands.map fun c => (c, jIs (isCooler fs v f (splitPath c))))),
+    ("is", Json.mkObj (cands.map fun c => (c, Json.bool (isCooler fs f (splitPath c))))),
     ("read", Json.mkObj (readable.map fun p =>
       (pathStr p, Json.arr #[jOpt jNat (readCollection fs f p), jOpt Json.str (sumAttr fs f p)]))),
     ("note", jOpt Json.str note)]
